@@ -61,7 +61,7 @@ def main():
         res["checks"] = {}
         for c in checks:
             t0 = time.time()
-            rc, out = sh(f"/venv/bin/python checks/check.py {c} --tier {a.tier}", cwd=VERIF, env=dict(os.environ, STRAX_REPO=str(wt)), timeout=7200)
+            rc, out = sh(f"/venv/bin/python checks/check.py {c} --tier {a.tier}", cwd=VERIF, env=dict(os.environ, STRAX_REPO=str(wt), VERIF_EVIDENCE_DIR=f"/tmp/sv_{a.sid}_evidence"), timeout=7200)
             lines = [ln for ln in out.splitlines() if ln.startswith(("VIOLATION", "KNOWN-FINDING"))]
             detail = []
             for ln in lines:
@@ -74,10 +74,14 @@ def main():
                         pass
             res["checks"][c] = {"rc": rc, "wall_s": round(time.time() - t0, 1), "lines": lines[:8], "detail": detail[:8]}
             # restore generated files / evidence for the clean tree
-            sh(f"/venv/bin/python checks/check.py {c} --tier quick --skip-prove >/dev/null 2>&1 || true", cwd=VERIF)
+            # (the evidence file now describes the mutant run; tools/run_all.py on the clean tree rewrites it before committing)
+            mod = VERIF / "checks" / "props" / f"{c.lower()}.py"
+            if "def regen" in mod.read_text():
+                sh(f"/venv/bin/python -c \"import sys; sys.path.insert(0,'checks'); from lib import engine; m=engine.load_module('{c}'); m.regen(engine.Ctx(m,'quick',0))\"", cwd=VERIF)
     finally:
         sh(f"git -C /repo worktree remove --force {wt}")
         shutil.rmtree(nb, ignore_errors=True)
+        shutil.rmtree(f"/tmp/sv_{a.sid}_evidence", ignore_errors=True)
         sh(f"rm -f /tmp/sv_{a.sid}.xml /tmp/sv_{a.sid}.xml.rerun")
     ok = res.get("demo_clean_rc") == 0 and res.get("demo_patched_rc", 0) != 0 and (a.skip_tests or res.get("tests_rc") == 0)
     res["valid_seed"] = ok
